@@ -42,7 +42,8 @@ StatusScripts ==
     \cup { p \o << Ack(0) >> \o mid \o << StatusReply(n) >> : p \in { << >>, << Noise >> }, mid \in { << >>, << Noise >>, << Eintr >> }, n \in {31, 32, 36, 38, 44, 48} }
     \cup { << Ack(0), Rule(<< 1 >>) >>, << Ack(0), Fr("msg", AUDIT_GET, "foreign", [i \in 1..44 |-> i]) >>, Nine \o << Ack(0), StatusReply(44) >> }
 
-RuleSets == { << >>, << Rule(<< 1 >>) >>, << Rule(<< 1, 2 >>), Noise, Rule(<< 3 >>) >> }
+\* what is listed is the kernel's business: also the same payload twice in a row
+RuleSets == { << >>, << Rule(<< 1 >>) >>, << Rule(<< 1, 2 >>), Noise, Rule(<< 3 >>) >>, << Rule(<< 4, 4 >>), Rule(<< 4, 4 >>) >> }
 ListScripts ==
     { << Ack(EPERM) >>, << Foreign >>, << Noise, Ack(0), Rule(<< 9 >>), Hard >>, << Ack(0), Rule(<< 9 >>), StatusReply(32) >> }
     \cup { p \o << Ack(0) >> \o rs \o << Done >> : p \in { << >>, << Eintr >> }, rs \in RuleSets }
